@@ -12,6 +12,7 @@ from __future__ import annotations
 
 import io
 import json
+import os
 import warnings
 from fractions import Fraction as Fr
 
@@ -1233,6 +1234,70 @@ def run_c16(ctx):
         elif not res["ab"] and canon["changed"] is None:
             ctx.violation("E4", f"identical {canon['kind']} meshes compare unequal", canon, impl=res)
         ctx.traces_validated += 1
+    # (2b) image grids that differ in WHICH direction is flat, or in one entry of the direction matrix
+    from fieldcompare.mesh import ImageMesh as _ImageMesh
+    for it in range(120 if q else 3000):
+        ext = [rng.randint(1, 3), rng.randint(1, 3), 0]
+        if rng.random() < 0.3:
+            ext[1] = 0
+        rng.shuffle(ext)
+        origin = [Fr(rng.randint(-4, 4)) for _ in range(3)]
+        spacing = [Fr(rng.randint(1, 3)) for _ in range(3)]
+        B1 = rng.choice([[[1, 0, 0], [0, 1, 0], [0, 0, 1]], [[0, -1, 0], [1, 0, 0], [0, 0, 1]], [[1, 0, 0], [0, 0, -1], [0, 1, 0]]])
+        B1 = [[Fr(x) for x in r] for r in B1]
+        ext2, B2, variant = list(ext), [list(r) for r in B1], rng.choice(["flat axis", "basis entry", "basis entry", "same"])
+        if variant == "flat axis":
+            nz = [e for e in ext if e > 0]
+            cand = [e2 for e2 in ([nz[0], 0, 0], [0, nz[0], 0], [0, 0, nz[0]]) if e2 != ext] if len(nz) == 1 else \
+                   [e2 for e2 in ([nz[0], nz[1], 0], [nz[0], 0, nz[1]], [0, nz[0], nz[1]]) if e2 != ext]
+            ext2 = rng.choice(cand)
+        elif variant == "basis entry":
+            B2[rng.randrange(3)][rng.randrange(3)] += rng.choice([Fr(1, 2), Fr(-1, 2), Fr(1)])
+
+        def pts_img(e, B):
+            out = []
+            for k in range(e[2] + 1):
+                for j in range(e[1] + 1):
+                    for i in range(e[0] + 1):
+                        v = [spacing[0] * i, spacing[1] * j, spacing[2] * k]
+                        out.append([origin[r] + sum(B[r][c] * v[c] for c in range(3)) for r in range(3)])
+            return out
+        P1, P2 = pts_img(ext, B1), pts_img(ext2, B2)
+        fl = lambda l: tuple(float(x) for x in l)  # noqa: E731
+        canon = {"kind": "image", "variant": variant, "extents": ext, "extents2": ext2, "origin": [str(x) for x in origin],
+                 "spacing": [str(x) for x in spacing], "basis": [[str(x) for x in r] for r in B1], "basis2": [[str(x) for x in r] for r in B2]}
+        try:
+            with quiet():
+                warnings.simplefilter("ignore")
+                a = _ImageMesh(tuple(ext), fl(origin), fl(spacing), np.array([fl(r) for r in B1]))
+                b = _ImageMesh(tuple(ext2), fl(origin), fl(spacing), np.array([fl(r) for r in B2]))
+                res = {"ab": bool(a.equals(b)), "ba": bool(b.equals(a))}
+                pa, pb = np.asarray(a.points), np.asarray(b.points)
+        except Exception as e:  # noqa: BLE001
+            ctx.violation("E4", f"ImageMesh equals raised {type(e).__name__}: {e}", canon)
+            continue
+        ctx.case(canon, variant != "same", sample={"case": canon, "impl": res})
+        ctx.count(f"c16:image:{variant}")
+        # the harness's formula for the points is itself checked against the mesh's own points (C07 proves the formula)
+        if [[Fr(float(x)) for x in p] for p in pa.tolist()] != P1 or [[Fr(float(x)) for x in p] for p in pb.tolist()] != P2:
+            ctx.violation("E2", "ImageMesh.points differ from origin + basis * (spacing * index)", canon, found_input=False)
+            continue
+        same_pts = len(P1) == len(P2) and P1 == P2
+        if res["ab"] != res["ba"]:
+            ctx.violation("E4", f"image equals is not symmetric: {res}", canon, impl=res)
+        elif res["ab"] and not same_pts:
+            ctx.violation("E4", f"image meshes compare equal although their points differ ({variant})", canon, impl=res)
+        elif not res["ab"] and variant == "same":
+            ctx.violation("E4", "identical image meshes compare unequal", canon, impl=res)
+        if len(img_exprs) < (400 if q else 8000):
+            rel, ab = tol_of(a)
+            qv = lambda l: clist([lib.cqfrac(Fr(x)) for x in l], "Q")  # noqa: E731
+            mkb = lambda B: clist([qv(r) for r in B], "qvec")  # noqa: E731
+            mk = lambda e, B: (f"{{| im_extents := {clist([cnat(x) for x in e], 'nat')}; im_origin := {qv(origin)}; "  # noqa: E731
+                               f"im_spacing := {qv(spacing)}; im_basis := {mkb(B)} |}}")
+            img_exprs.append(f"image_equals {lib.cqfrac(rel)} {lib.cqfrac(ab)} {mk(ext, B1)} {mk(ext2, B2)}")
+            img_meta.append((canon, res["ab"]))
+        ctx.traces_validated += 1
     hdr = HEADER.replace("From FC Require Import Model.Scalar Model.Mesh.", "From FC Require Import Model.Scalar Model.Mesh Model.Structured Model.ImageEq.")
     for (canon, implv), mo in zip(img_meta, ctx.coq_eval(hdr, img_exprs, name="c16img", shard=80)):
         ctx.tie("ImageMesh.equals vs Model.ImageEq.image_equals")
@@ -1340,9 +1405,62 @@ def run_c17(ctx):
                 ctx.violation("E4", "scalar fields are affected by the space-dimension matching", canon, impl=res)
         ctx.traces_validated += 1
     run_ladder_batch(ctx, ladder_batch)
+    cli_dimension_stream(ctx, 12 if q else 200)
     ctx.rule = ("meshes of space dimension 1-2 with scalar / vector / tensor / int point and cell fields against their zero-padded "
                 "3-component copies (padding done by the harness), both roles, with and without relabeling, matching enabled or "
                 "disabled, optionally one non-zero entry in a padded coordinate / vector component / tensor component")
+
+
+def cli_dimension_stream(ctx, n):
+    """the option as the command line exposes it: a 2-d mesh file against its zero-padded 3-d twin (XDMF written with meshio, the
+    container that keeps two-component coordinates) in file mode and in directory mode, in both roles, with and without
+    --disable-mesh-space-dimension-matching: exit status 0 iff the matching is enabled"""
+    import meshio
+    import shutil
+    from .clicommon import run_cli
+    rng = ctx.rng
+    for it in range(n):
+        nx = rng.randint(1, 3)
+        pts2 = np.array([[float(i), float(j)] for j in range(2) for i in range(nx + 1)])
+        quads = np.array([[i, i + 1, nx + 1 + i + 1, nx + 1 + i] for i in range(nx)])
+        u = np.array([rng.randint(-8, 8) / 4.0 for _ in pts2])
+        v2 = np.array([[rng.randint(-8, 8) / 4.0, rng.randint(-8, 8) / 4.0] for _ in pts2])
+        pts3 = np.hstack([pts2, np.zeros((len(pts2), 1))])
+        v3 = np.hstack([v2, np.zeros((len(pts2), 1))])
+        d = os.path.join(str(ctx.workdir), f"dimcli{it}")
+        low_is_source = rng.random() < 0.5
+        try:
+            for side, low in (("res", low_is_source), ("ref", not low_is_source)):
+                os.makedirs(os.path.join(d, side))
+                m = meshio.Mesh(pts2 if low else pts3, [("quad", quads)], point_data={"u": u, "v": v2 if low else v3})
+                cwd = os.getcwd()
+                os.chdir(os.path.join(d, side))
+                try:
+                    meshio.xdmf.write("grid.xdmf", m, data_format="XML")
+                finally:
+                    os.chdir(cwd)
+            for mode in ("file", "dir"):
+                for disabled in (False, True):
+                    args = ([mode, os.path.join(d, "res", "grid.xdmf"), os.path.join(d, "ref", "grid.xdmf")] if mode == "file"
+                            else [mode, os.path.join(d, "res"), os.path.join(d, "ref")])
+                    args += ["--verbosity", "0"] + (["--disable-mesh-space-dimension-matching"] if disabled else [])
+                    with quiet():
+                        warnings.simplefilter("ignore")
+                        rc, log, exc = run_cli(args)
+                    canon = {"cli": mode, "disable_space_dimension_matching": disabled, "low_is_source": low_is_source, "nx": nx,
+                             "u": [float(x) for x in u], "v": [[float(x) for x in r] for r in v2]}
+                    ctx.case(canon, True, sample={"cli": mode, "disabled": disabled, "low_is_source": low_is_source, "exit": rc})
+                    ctx.count(f"c17 cli:{mode}:{'disabled' if disabled else 'enabled'}")
+                    ctx.tie("T2 command line: --disable-mesh-space-dimension-matching in file and dir mode")
+                    want_zero = not disabled
+                    if exc:
+                        ctx.violation("E4", f"fieldcompare {mode}: exception escaped: {exc}", canon)
+                    elif (rc == 0) != want_zero:
+                        ctx.violation("E4", f"fieldcompare {mode}: exit status {rc} for a 2-d mesh against its zero-padded 3-d twin with "
+                                            f"dimension matching {'disabled' if disabled else 'enabled'}", canon)
+                    ctx.traces_validated += 1
+        finally:
+            shutil.rmtree(d, ignore_errors=True)
 
 
 # ------------------------------------------------------------------------------------------------
